@@ -262,3 +262,32 @@ def run_property(pid, log):
 
 # C18 (sub-document writes preserve the other properties, also against a concurrent writer) reuses the sub-document schedules of C03
 SCENARIOS["C18"] = [sc for sc in SCENARIOS["C03"] if sc["name"].startswith("subdoc")]
+
+
+# C10: what a successful call stored is visible to any later open - also after calls that were refused in between
+SCENARIOS["C10"] = [
+    dict(name="refused-CreateNew-leaves-the-existing-bucket-alone", kind="reg",
+         setup=["open h0 url=d0 name=A mode=0", "put h0 x v=v1", "hclose h0", "open h1 url=d0 name=A mode=1"],
+         threads={}, script=[],
+         observe=["open h2 url=d0 name=A mode=2", "get h2 x"],
+         expect=[(0, r"^r=ok", "the bucket can no longer be reopened after a refused CreateNew"),
+                 (1, r"^r=ok v=v1", "the document written before the refused CreateNew is gone")]),
+    dict(name="refused-ReOpenExisting-creates-nothing", kind="reg",
+         setup=["open h0 url=d0 name=A mode=2"],
+         threads={}, script=[],
+         observe=["open h1 url=d0 name=A mode=1", "put h1 x v=v2", "hclose h1", "open h2 url=d0 name=A mode=2", "get h2 x"],
+         expect=[(0, r"^r=ok", "CreateNew after a refused ReOpenExisting failed"), (4, r"^r=ok v=v2", "data written after the re-creation is not there")]),
+]
+
+
+# C13: closing one handle disables only that handle - what runs through the other handles (here: a feed) keeps working
+SCENARIOS["C13"] = SCENARIOS.get("C13", []) + [
+    dict(name="closing-a-handle-leaves-feeds-of-other-handles-running", kind=k,
+         setup=["hopen h1", "mkcoll c1 via=h1", "feed f0 c1 via=h0 bf=none", "feed f1 c0 via=h1 bf=none", "hclose h1"],
+         threads={}, script=[],
+         observe=["lifestate", "probe c1 via=h0", "probe c0 via=h0"],
+         expect=[(0, r"f0=0 f1=0 afterdone=0", "closing a handle that was not the last one ended a feed"),
+                 (1, r"f0=1", "the feed started through the open handle no longer receives its collection's writes"),
+                 (2, r"f1=1", "the feed started through the closed handle (store still open) no longer receives its collection's writes")])
+    for k in ("mem", "disk")
+]
